@@ -114,6 +114,37 @@ def eval_platform_test(test):
     return None
 
 
+def loop_shape(fn, where):
+    """Shape of the loops of a property accessor.  Returns (exits, tests):
+       exits: [(kind, guarded)] for every return/break/continue inside a `for` body; guarded = an `if` lies between the
+              innermost enclosing `for` and the statement (an unguarded exit makes the loop inspect only its first element);
+       tests: ast dumps of the `if` tests that sit directly in a `for` body (the search condition).
+    Fail closed on `while` loops (no accessor of the pinned sources uses one)."""
+    exits = []; tests = []
+    def walk(stmts, in_for, guarded, direct):
+        for st in stmts:
+            if isinstance(st, (ast.FunctionDef, ast.AsyncFunctionDef, ast.ClassDef)):
+                continue
+            if isinstance(st, ast.While):
+                fail("%s: `while` loop in a property accessor is not supported" % where)
+            if isinstance(st, ast.For):
+                walk(st.body, True, False, True)
+                walk(st.orelse, in_for, guarded, False)
+            elif isinstance(st, ast.If):
+                if in_for and direct:
+                    tests.append(ast.dump(st.test))
+                walk(st.body, in_for, True, False)
+                walk(st.orelse, in_for, True, False)
+            elif isinstance(st, (ast.With, ast.Try)):
+                for blk in ([st.body] + ([h.body for h in st.handlers] + [st.orelse, st.finalbody] if isinstance(st, ast.Try) else [])):
+                    walk(blk, in_for, guarded, direct)
+            elif isinstance(st, (ast.Return, ast.Break, ast.Continue)):
+                if in_for:
+                    exits.append((type(st).__name__.lower(), guarded))
+    walk(fn.body, False, False, False)
+    return exits, tests
+
+
 def main():
     files = sorted(glob.glob(os.path.join(PKG, "*.py")) + glob.glob(os.path.join(PKG, "integrators", "*.py")))
     if not files:
@@ -268,6 +299,7 @@ def main():
                             fail("%s.%s getter without self" % (cname, st.name))
                         selfname = st.args.args[0].arg
                         p.setdefault("reads", [])
+                        p["gshape"] = loop_shape(st, "%s.%s getter" % (cname, st.name))
                         for n in ast.walk(st):
                             # attribute names read on self OR on another instance reached from self (Variation.lrescale reads
                             # sim.var_config[i]._lrescale): the Coq side intersects this set with the class's fields
@@ -276,6 +308,7 @@ def main():
                     elif isinstance(d, ast.Attribute) and d.attr == "setter" and isinstance(d.value, ast.Name):
                         p = plist.setdefault(d.value.id, {"setter": False, "targets": []})
                         p["setter"] = True
+                        p["sshape"] = loop_shape(st, "%s.%s setter" % (cname, st.name))
                         if not st.args.args:
                             fail("%s.%s setter without self" % (cname, st.name))
                         selfname = st.args.args[0].arg
@@ -375,6 +408,27 @@ def main():
     w(";\n".join(" (%s, %s, [%s])" % (qs(cn), qs(p), "; ".join(qs(t) for t in d.get("reads", [])))
                  for cn, pl in props for p, d in pl.items()))
     w("].")
+    w("(* class, property, accessor, statement, guarded: every return/break/continue inside a `for` body of an accessor, and")
+    w("   whether an `if` lies between the innermost `for` and it *)")
+    le = []
+    for cn, pl in props:
+        for p, d in pl.items():
+            for acc, key in (("getter", "gshape"), ("setter", "sshape")):
+                for kind, g in d.get(key, ([], []))[0]:
+                    le.append(" (%s, %s, %s, %s, %s)" % (qs(cn), qs(p), qs(acc), qs(kind), "true" if g else "false"))
+    w("Definition py_loop_exits : list (string * string * string * string * bool) := [")
+    w(";\n".join(le)); w("].")
+    w("(* class, property, has_search_g, has_search_s, same: getter / setter contain a `for` whose body tests a condition; same =")
+    w("   the two accessors test syntactically the same condition(s) *)")
+    ls = []
+    for cn, pl in props:
+        for p, d in pl.items():
+            tg = d.get("gshape", ([], []))[1]; ts = d.get("sshape", ([], []))[1]
+            if tg or ts:
+                ls.append(" (%s, %s, %s, %s, %s)" % (qs(cn), qs(p), "true" if tg else "false", "true" if ts else "false",
+                                                    "true" if sorted(set(tg)) == sorted(set(ts)) else "false"))
+    w("Definition py_loop_search : list (string * string * bool * bool * bool) := [")
+    w(";\n".join(ls)); w("].")
     w("")
     w("Definition py_symbols : list (string * string) := [")
     w(";\n".join(" (%s, %s)" % (qs(a), qs(b)) for a, b in symbols))
